@@ -6,6 +6,12 @@ ENGINES = [
 ]
 NOT_BUILT_REASON = {}
 META = {
+    "C12": {
+        "engine": "vkit (E2), model bound to the real proof structure",
+        "technique": "exhaustive enumeration of proof descriptors x queried statements x attribute values on an integer box against integer semantics; exhaustive alteration/transplant enumeration of real range proofs with a semantic oracle",
+        "text": "Pure part: for every descriptor of a finite box (signs, factors incl. 2^62..2^64-1, bounds incl. the size limits, 3/4 squares, l_d) accepted by ExtractStructure, the relation verification actually checks is read from the real structure's exponents; for every m in [0,12] satisfying it, ProvenStatement and every ProvesStatement==true must hold over the integers. Crypto part: honest proofs with 3- and 4-square statements, false statements at the boundary, every single-field alteration, every transplant (other hidden index, disclosed index below/above the largest hidden one, unused base, len(R), 1000, -1, other credential; moved, copied, bogus added): accepted => every carried range proof is on a hidden existing index and reports a statement true of the signed value.",
+        "note": "Soundness of the sum-of-squares argument itself rests on strong RSA (not decidable here). Attribute box [0,12]; crypto layer on one credential shape per key.",
+    },
     "C07": {
         "engine": "vkit (E4) + vsched (E1)",
         "technique": "explicit-state search over proof-producing operation histories with an all-pairs randomiser-reuse oracle; preemption-bounded schedule exploration of the shared-credential harnesses",
